@@ -177,42 +177,91 @@ def ob_fq2_norm():
     return dict(H.stats(), paths=len(res) + 1, sample="norm = c0^2 + c1^2; legendre = legendre(norm)")
 
 
+def _fq2_sqrt_native_probe():
+    """native replay of Fq2::square_root on elements of every shape (squares of the subfield, non-residues of the subfield, purely imaginary, generic
+    squares): returns the first a with legendre(a) == 1 (or a == 0) whose returned root does not square to a."""
+    import random
+    from engine import replay
+    rnd = random.Random(4)
+
+    def m2(x, y):
+        return ((x[0] * y[0] - x[1] * y[1]) % Q, (x[0] * y[1] + x[1] * y[0]) % Q)
+    samples = [(0, 0), (1, 0), (4, 0), (9, 0), (Q - 2, 0), (Q - 1, 0), (2, 0), (0, 1), (0, Q - 1), (0, 2), (Q - 4, 0)]
+    for _ in range(12):
+        b = (rnd.randrange(Q), rnd.randrange(Q))
+        samples.append(m2(b, b))
+    for _ in range(4):
+        samples.append((pow(rnd.randrange(Q), 2, Q), 0))
+        b = (0, rnd.randrange(Q))
+        samples.append(m2(b, b))
+    hx = [replay.hex_fq(a[0]) + replay.hex_fq(a[1]) for a in samples]
+    outs = replay.run(["tower 1 square_root 0 0 " + h for h in hx] + ["tower 1 legendre 0 0 " + h for h in hx], "A")
+    n = len(samples)
+    for k, a in enumerate(samples):
+        r = (int(outs[k][:96], 16), int(outs[k][96:192], 16))
+        norm = (a[0] * a[0] + a[1] * a[1]) % Q
+        is_sq = a == (0, 0) or pow(norm, (Q - 1) // 2, Q) == 1
+        if is_sq and m2(r, r) != a:
+            return {"a": hx[k], "square_root": outs[k], "legendre": outs[n + k], "root_squared_equals_a": False}
+    return None
+
+
 def ob_fq2_sqrt():
+    """Fq2::square_root against Algorithm 9 (Adj, Rodriguez-Henriquez) over uninterpreted field operations.  Fq2 values are terms of sort F2 with
+    component projections c0, c1 : F2 -> F and extensionality, so that the branch condition may be written at either level (Fq2::equal(alpha, -1),
+    or tests on alpha's components); the VC is out == want under the path condition where the selector of want is alpha == -1 *semantically*."""
     P = prog()
     S = z3.DeclareSort("F2")
+    F = z3.DeclareSort("F")
     mul = z3.Function("mul", S, S, S)
     sq = z3.Function("sq", S, S)
     add = z3.Function("add", S, S, S)
     expf = z3.Function("exp", S, z3.IntSort(), S)
+    c0f, c1f = z3.Function("c0", S, F), z3.Function("c1", S, F)
     a = z3.Const("a", S)
-    ONE, MINUS1, U = z3.Const("one", S), z3.Const("minus_one", S), z3.Const("u", S)
-    is_zero = z3.Bool("a_is_zero")
-    eq_m1 = z3.Bool("alpha_is_minus_one")
+    ZERO, ONE, MINUS1, U = z3.Const("zero", S), z3.Const("one", S), z3.Const("minus_one", S), z3.Const("u", S)
+    zF, oF, mF = z3.Const("zeroF", F), z3.Const("oneF", F), z3.Const("minus_oneF", F)
+    x_, y_ = z3.Consts("x_ y_", S)
+    AX = [z3.Distinct(zF, oF, mF),
+          c0f(ZERO) == zF, c1f(ZERO) == zF, c0f(ONE) == oF, c1f(ONE) == zF, c0f(MINUS1) == mF, c1f(MINUS1) == zF, c0f(U) == zF, c1f(U) == oF,
+          z3.ForAll([x_, y_], mul(x_, y_) == mul(y_, x_)), z3.ForAll([x_], sq(x_) == mul(x_, x_))]
     fname = P.find1(B + r"Fq2::square_root\(.*\)")
-    Qm1 = Q - 1
-    consts = {}
+    RINV = pow(1 << 384, -1, Q)
+    cmp_terms = []
+    fconst = {0: zF, 1: oF, Q - 1: mF}
+    f2const = {(0, 0): ZERO, (1, 0): ONE, (Q - 1, 0): MINUS1, (0, 1): U}
 
-    def raw_const(I, p):
-        """identify concrete Fq2 constants by value (canonical ints)"""
-        RINV = pow(1 << 384, -1, Q)
-        c0 = I.load_bytes(p.obj, p.off, 48)
-        c1 = I.load_bytes(p.obj, p.off + 48, 48)
-        if not (is_conc(c0) and is_conc(c1)):
-            return None
-        v = (c0 * RINV % Q, c1 * RINV % Q)
-        return {(1, 0): ONE, (Q - 1, 0): MINUS1, (0, 1): U}.get(v)
-
-    outs = []
     I = eir.Interp(P)
+
+    def conc_fq(p):
+        v = I.load_bytes(p.obj, p.off, 48)
+        return v * RINV % Q if is_conc(v) else None
 
     def rd(p):
         c = p.obj.cells.get(p.off)
         if c is not None and z3.is_expr(c[1]) and c[1].sort() == S:
             return c[1]
-        k = raw_const(I, p)
-        if k is not None:
-            return k
+        v0, v1 = conc_fq(p), conc_fq(Ptr(p.obj, p.off + 48))
+        if v0 is not None and v1 is not None:
+            if (v0, v1) not in f2const:
+                k = z3.Const("k2_%x_%x" % (v0 % (1 << 32), v1 % (1 << 32)), S)
+                f2const[(v0, v1)] = k
+                for w, prj in ((v0, c0f), (v1, c1f)):
+                    AX.append(prj(k) == fconst.setdefault(w, z3.Const("kF_%x" % (w % (1 << 48)), F)))
+            return f2const[(v0, v1)]
         raise ExecError("abstract-bytes", "Fq2 term expected at %r" % (p,))
+
+    def rdF(p):
+        """an Fq operand: a component of an abstract Fq2 cell, or a concrete constant"""
+        for base in (p.off, p.off - 48):
+            c = p.obj.cells.get(base)
+            if c is not None and z3.is_expr(c[1]) and c[1].sort() == S:
+                cmp_terms.append(c[1])
+                return (c0f if base == p.off else c1f)(c[1])
+        v = conc_fq(p)
+        if v is not None:
+            return fconst.setdefault(v, z3.Const("kF_%x" % (v % (1 << 48)), F))
+        raise ExecError("abstract-bytes", "Fq term expected at %r" % (p,))
 
     def wr(p, v):
         I._check_access(p, 96, 1, True)
@@ -222,13 +271,21 @@ def ob_fq2_sqrt():
     I.add_intercept(C + r"::square\(.*\)", lambda I_, n, a_, s: wr(a_[0], sq(rd(a_[1]))), "square")
     I.add_intercept(C + r"::add\(.*\)", lambda I_, n, a_, s: wr(a_[0], add(rd(a_[1]), rd(a_[2]))), "add")
     I.add_intercept(C + r"::copy\(.*\)", lambda I_, n, a_, s: wr(a_[0], rd(a_[1])), "copy")
-    I.add_intercept(C + r"::is_zero\(\) const", lambda I_, n, a_, s: is_zero, "is_zero")
+
+    def h_is_zero(I_, n, a_, s):
+        x = rd(a_[0])
+        cmp_terms.append(x)
+        return x == ZERO
 
     def h_eq(I_, n, a_, s):
         x, y = rd(a_[0]), rd(a_[1])
-        consts["eq"] = (x, y)
-        return eq_m1
+        cmp_terms.extend([x, y])
+        return x == y
+    I.add_intercept(C + r"::is_zero\(\) const", h_is_zero, "is_zero")
     I.add_intercept(C + r"::equal\(.*\)", h_eq, "equal")
+    for cls in (B + "Fq", NS + r"FpBase<384>", NS + r"Fp<384, .*>", NS + r"BigInt<384>"):
+        I.add_intercept(cls + r"::is_zero\(\) const", lambda I_, n, a_, s: rdF(a_[0]) == zF, "Fq::is_zero")
+        I.add_intercept(cls + r"::equal\(.*\)", lambda I_, n, a_, s: rdF(a_[0]) == rdF(a_[1]), "Fq::equal")
 
     def h_exp(I_, n, a_, s):
         e = I_.load_bytes(a_[2].obj, a_[2].off, 48)
@@ -247,24 +304,41 @@ def ob_fq2_sqrt():
     a1 = expf(a, z3.IntVal((Q - 3) // 4))
     alpha = mul(sq(a1), a)
     x0 = mul(a1, a)
+    want = z3.If(a == ZERO, a, z3.If(alpha == MINUS1, mul(x0, U), mul(x0, expf(add(alpha, ONE), z3.IntVal((Q - 1) // 2)))))
+    nq = 0
     for path, out in I.explore(once, 16):
         n += 1
         s = z3.Solver()
+        s.set("timeout", 20000)
+        for ax in AX:
+            s.add(ax)
+        # extensionality, instantiated for every term that was compared (at either level) against every named constant
+        terms = {t.get_id(): t for t in cmp_terms + [a, alpha]}.values()
+        for t in terms:
+            for k in list(f2const.values()):
+                s.add(z3.And(c0f(t) == c0f(k), c1f(t) == c1f(k)) == (t == k))
         for c in path.pc:
             s.add(c)
-        want = z3.If(is_zero, a, z3.If(eq_m1, mul(x0, U), mul(x0, expf(add(alpha, ONE), z3.IntVal((Q - 1) // 2)))))
         s.add(out != want)
-        if s.check() != z3.unsat:
-            raise Violation("Fq2::square_root:conformance", "Fq2::square_root does not follow Algorithm 9 (a1 = a^((q-3)/4), alpha = a1^2 a, x0 = a1 a, x0*u or x0*(1+alpha)^((q-1)/2))", {"path": n})
-        if "eq" in consts:
-            s2 = z3.Solver()
-            x, y = consts["eq"]
-            s2.add(z3.Not(z3.Or(z3.And(x == alpha, y == MINUS1), z3.And(y == alpha, x == MINUS1))))
-            if s2.check() != z3.unsat:
-                raise Violation("Fq2::square_root:branch", "the branch of Fq2::square_root does not test alpha == -1", {})
+        r = s.check()
+        nq += 1
+        if r == z3.sat:
+            m = s.model()
+            shape = {"a_is_zero": str(m.eval(a == ZERO)), "alpha_is_minus_one": str(m.eval(alpha == MINUS1)),
+                     "alpha_c1_is_zero": str(m.eval(c1f(alpha) == zF)), "alpha_c0_is_minus_one": str(m.eval(c0f(alpha) == mF))}
+            ce = {"path": n, "model_shape": shape}
+            nat = _fq2_sqrt_native_probe()
+            if nat is not None:
+                ce["native_replay"] = nat
+            raise Violation("Fq2::square_root:conformance", "Fq2::square_root does not follow Algorithm 9 (a1 = a^((q-3)/4), alpha = a1^2 a, x0 = a1 a; "
+                            "x0*u exactly when alpha = -1, else x0*(1+alpha)^((q-1)/2)): a path returns another term" +
+                            ("; natively the returned root of a square does not square to it" if nat else ""), ce)
+        if r != z3.unsat:
+            raise Inconclusive("solver answered %s on the conformance VC of path %d" % (r, n))
     if Q % 4 != 3 or n < 3:
-        raise Inconclusive("expected three paths (zero, alpha = -1, general), saw %d" % n)
-    return {"queries": 2 * n, "paths": n, "functions": [P.demangled[fname][:60]], "sample": "3 paths conform to Algorithm 9; exponents (q-3)/4 and (q-1)/2"}
+        raise Inconclusive("expected at least three paths (zero, alpha = -1, general), saw %d" % n)
+    return {"queries": nq, "paths": n, "functions": [P.demangled[fname][:60]],
+            "sample": "%d paths conform to Algorithm 9 with the branch decided by alpha == -1 (component-level tests admitted through c0/c1 extensionality); exponents (q-3)/4 and (q-1)/2" % n}
 
 
 def ob_fq2_exponentiate():
